@@ -9,7 +9,7 @@ mkdir -p .work evidence replays
 python3 tools/gen_main.py
 (cd tools/genfacts && go build -o ../../.work/genfacts .)
 for g in $(.work/genfacts); do .work/genfacts -repo /repo -out lean/Scion/Gen -group "$g" || echo "genfacts group $g failed (reported by the checks that need it)"; done
-(cd lean && lake build Scion Driver scion_model)
+(cd lean && lake build Scion $(grep -o 'sm_[a-z0-9_]*' lakefile.toml | sort -u))
 cp /repo/go.sum harness/go.sum 2>/dev/null || true
 for d in harness/cmd/*/; do n=$(basename "$d"); (cd harness && go build -tags verif -o ../.work/vh_$n ./cmd/$n) || echo "engine $n does not build (reported by its checks)"; done
 echo setup done
